@@ -38,7 +38,23 @@ def doProx (l : Line) : Option String := do
     | 4 => lo.getD i nanF
     | 5 => up.getD i nanF
     | _ => nanF
-  let st := run (fun _ _ => nanF) (prog (floatFns n mc w p) par id) 0 (if alias then 0 else 1) m
+  let iters := (l.nat? "iters").getD 1
+  let P := prog (floatFns n mc w p) par id
+  -- `iters=K` (aliased only): K aliased calls on the same store (`aliasedCalls`)
+  -- between the calls the store is re-tabulated (first n*mc entries of buffers 0-5) into arrays:
+  -- the same values as `aliasedCalls … iters m`, without re-evaluating the functional memory of
+  -- the earlier calls at every read
+  let tabulate (mm : Nat → Vec Float) : Array (Array Float) :=
+    ((List.range 6).map fun b => ((List.range (n * mc)).map (mm b)).toArray).toArray
+  let ofTab (arrs : Array (Array Float)) : Nat → Vec Float :=
+    fun b i => ((arrs.getD b #[]).getD i nanF)
+  let st : St Float :=
+    if alias && iters > 1 then
+      let final := (List.range iters).foldl
+        (fun (arrs : Array (Array Float)) _ =>
+          tabulate (aliasedCalls (fun _ _ _ => nanF) P 1 (ofTab arrs))) (tabulate m)
+      { mem := ofTab final, next := 10 }
+    else run (fun _ _ => nanF) P 0 (if alias then 0 else 1) m
   let dump (b : Nat) := showList showBits ((List.range (n * mc)).map (st.mem b))
   some s!"ok b0={dump 0} b1={dump 1} b2={dump 2} b3={dump 3} b4={dump 4} b5={dump 5}"
 
